@@ -166,12 +166,17 @@ U1Inplace(z) ==
   \cup {[properties |-> m] : m \in {[a |-> TrueS], [b |-> IntS], [a |-> [properties |-> [b |-> TrueS]]]}}
   \cup {[patternProperties |-> ("b$" :> TrueS)]}
   \cup {[additionalProperties |-> IntS]}
+ChildPSubs == {[additionalProperties |-> TrueS], [unevaluatedProperties |-> TrueS], [properties |-> [b |-> TrueS, c |-> TrueS]],
+               [patternProperties |-> ("^" :> TrueS)], [type |-> "object"]}
+U1Child == {[properties |-> [a |-> c]] : c \in ChildPSubs} \cup {[additionalProperties |-> c] : c \in ChildPSubs}
+           \cup {[patternProperties |-> ("^a" :> c)] : c \in ChildPSubs} \cup {[allOf |-> <<[properties |-> [a |-> c]]>>] : c \in ChildPSubs}
+           \cup {[propertyNames |-> [maxLength |-> 3]], [dependentSchemas |-> [a |-> [properties |-> [a |-> [properties |-> [b |-> TrueS]]]]]]}
 UnevP == {[unevaluatedProperties |-> FalseS], [unevaluatedProperties |-> StrS]}
 U1Nested(z) == {[allOf |-> <<[anyOf |-> <<e, f>>]>>] : e \in {PA, [required |-> <<"a">>] @@ PA, FalseS}, f \in {PB, [unevaluatedProperties |-> IntS]}}
             \cup {[anyOf |-> <<[allOf |-> <<PA, FalseS>>], PB>>], [oneOf |-> <<[not |-> PA], PB>>],
                   [allOf |-> <<[properties |-> [a |-> [properties |-> [b |-> TrueS]]]]>>],
                   [allOf |-> <<[unevaluatedProperties |-> FalseS] @@ PA>>]}
-U1Schemas(z) == {u @@ x : u \in UnevP, x \in IF K >= 2 THEN UNION {U1Inplace(0), Pairs(U1Inplace(0)), U1Nested(0)} ELSE UNION {U1Inplace(0), U1Nested(0)}}
+U1Schemas(z) == {u @@ x : u \in UnevP, x \in IF K >= 2 THEN UNION {U1Inplace(0), Pairs(U1Inplace(0)), U1Nested(0), U1Child} ELSE UNION {U1Inplace(0), U1Nested(0), U1Child}}
 U1Vals == {Obj(m) : m \in MapsOf({"a", "b", "c"}, {Num(R_1), Str("a")}, 0, 3)}
           \cup {Obj([a |-> Obj([b |-> Num(R_1), c |-> Num(R_1)]), b |-> Num(R_1)]), Num(R_1)}
 
@@ -188,9 +193,22 @@ U2Inplace(z) ==
   \cup {[defs |-> [x |-> e], ref |-> LocalRef(PtrDefs("x"))] : e \in ItemSubs}
   \cup {[prefixItems |-> <<TrueS>>], [items |-> IntS], [contains |-> IntS], [contains |-> StrS, minContains |-> 0],
         [prefixItems |-> <<[prefixItems |-> <<TrueS, TrueS>>]>>]}
+\* evaluations at CHILD instance locations (inside a nested array) must never count for the parent
+ChildSubs == {[type |-> "array", items |-> TrueS], [prefixItems |-> <<TrueS, TrueS>>], [unevaluatedItems |-> TrueS],
+              [contains |-> TrueS], [type |-> "array"]}
+U2Child == {[contains |-> c] : c \in ChildSubs} \cup {[items |-> c] : c \in ChildSubs} \cup {[prefixItems |-> <<c>>] : c \in ChildSubs}
+           \cup {[allOf |-> <<[contains |-> c]>>] : c \in ChildSubs}
+           \cup {[defs |-> [x |-> [contains |-> c]], ref |-> LocalRef(PtrDefs("x"))] : c \in ChildSubs}
+\* an in-place subschema that records indexes, next to the schema's own prefixItems / items / contains
+U2Mixed == {x @@ y : x \in {[allOf |-> <<[contains |-> c]>>] : c \in {IntS, StrS}} \cup {[anyOf |-> <<[prefixItems |-> <<TrueS, TrueS>>], [contains |-> StrS]>>],
+                                [anyOf |-> <<[contains |-> StrS], [prefixItems |-> <<TrueS>>]>>], [allOf |-> <<[prefixItems |-> <<IntS>>]>>]},
+                     y \in {[prefixItems |-> <<IntS>>], [prefixItems |-> <<TrueS>>], [contains |-> IntS], [contains |-> StrS, minContains |-> 0], <<>>}}
 UnevI == {[unevaluatedItems |-> FalseS], [unevaluatedItems |-> StrS]}
-U2Schemas(z) == {u @@ x : u \in UnevI, x \in IF K >= 2 THEN UNION {U2Inplace(0), Pairs(U2Inplace(0))} ELSE U2Inplace(0)}
+U2Schemas(z) == {u @@ x : u \in UnevI, x \in IF K >= 2 THEN UNION {U2Inplace(0), Pairs(U2Inplace(0)), U2Child, U2Mixed}
+                                                       ELSE UNION {U2Inplace(0), U2Child, U2Mixed}}
 U2Vals == {Arr(e) : e \in SeqsOf({Num(R_1), Str("a")}, 0, 3)} \cup {Arr(<<Arr(<<Num(R_1), Num(R_1)>>), Num(R_1)>>), Num(R_1)}
+          \cup {Arr(<<Arr(<<Num(R_1)>>), Num(R_3)>>), Arr(<<Arr(<<Num(R_1), Num(R_3)>>), Str("a")>>), Arr(<<Arr(<<Num(R_1)>>), Arr(<<Num(R_3)>>)>>),
+                Arr(<<Str("a"), Arr(<<Str("a"), Str("a")>>), Num(R_1)>>)}
 
 \* ------------------------------------------------------------ draft-07 families
 G1Atoms ==
